@@ -3,6 +3,7 @@ package gobinlog_test
 import (
 	"fmt"
 	"sync"
+	"sync/atomic"
 	"time"
 )
 
@@ -33,22 +34,14 @@ type Sched struct {
 	handlerFail bool
 }
 
-var (
-	schedMu  sync.Mutex
-	theSched *Sched
-)
+var theSched atomic.Value // *Sched (nil pointer: none); read with one atomic load at every hook point
 
 func currentSched() *Sched {
-	schedMu.Lock()
-	defer schedMu.Unlock()
-	return theSched
+	s, _ := theSched.Load().(*Sched)
+	return s
 }
 
-func setSched(s *Sched) {
-	schedMu.Lock()
-	theSched = s
-	schedMu.Unlock()
-}
+func setSched(s *Sched) { theSched.Store(s) }
 
 func newSched() *Sched {
 	return &Sched{on: true, gates: map[int]chan struct{}{}, at: map[int]string{}, arrivals: make(chan arrival, 4096)}
